@@ -42,7 +42,7 @@ MODULES = ['Pyiga.Model.Index', 'Pyiga.Model.MLMatrix', 'Pyiga.Model.Layout', 'P
 
 # (form of c01.FORMS, is the form symmetric?)
 CFG_FORMS = [('lapl_c', True), ('mass2', True), ('stiff3', True), ('conv1d', False), ('pg', False),
-             ('vec22', True), ('vec21', False), ('divdiv2', True), ('matpar', False), ('divdiv3', True)]
+             ('vec22', True), ('vec21', False), ('divdiv2', True), ('matpar', False), ('divdiv3', True), ('pg_mult', False)]
 THREAD_COUNTS = [1, 2, 3, 5, 8, 16]
 UPD_FORM = 'f*u*v*dx + c*inner(grad(u),grad(v))*dx'
 UPD2_FORM = 'f*u*v*dx + inner(grad(f),grad(u))*v*dx + c*inner(grad(f),grad(f))*u*v*dx'     # updatable field at two derivative orders
@@ -122,6 +122,15 @@ def worker_cfg(name, symform, seed, tier):
             got = guard(lambda: canon(assemble.assemble_entries(asm, symmetric=True, format='csr')))
             out['reqs'].append(('drv_c08', 'asm 1 1 %s %s' % (nzs, vs), got, 'asm 1-D symmetric=True'))
             out['counts']['1-D symmetric probes'] = 1
+        # entry() for ALL index pairs vs the assembled matrix: independent of the sparsity pattern the assembly enumerates
+        if S.shape[0] * S.shape[1] <= 6000:
+            full = np.array([[asm.entry(i, j) for j in range(S.shape[1])] for i in range(S.shape[0])])
+            Afull = assemble.assemble_entries(asm, symmetric=False, format='csr').toarray()
+            out['counts']['full entry() tables'] = 1
+            if not np.array_equal(full, Afull):
+                k = np.argwhere(full != Afull)[0]
+                out['violations'].append(('pattern:' + name, 'assembled matrix differs from asm.entry(i,j) over ALL index pairs: entry(%d,%d) = %r but the assembled matrix has %r there (%d positions differ: the enumerated sparsity pattern misses non-zero entries)'
+                                          % (k[0], k[1], float(full[k[0], k[1]]), float(Afull[k[0], k[1]]), int(np.sum(full != Afull))), desc, True))
         # symmetric flag on a symmetric form vs entry symmetry itself (hypothesis of sym_equiv)
         if symform and square:
             asym = np.max(np.abs(dense - dense.T)) if dense.size else 0.0
@@ -581,6 +590,9 @@ def worker(name, seed, tier, **kw):
         return worker_asmclass(seed, tier, False)
     if name == 'asmclass-upd':
         return worker_asmclass(seed, tier, True)
+    if name == 'bdhist':
+        # boundary assemblies for different sides (and a volume assembly) sharing one args dict (oracle: C01)
+        return c01.worker('bdhist', seed, tier)
     if name == 'parlay':
         # parameters of shape (d,), (d,d) in every memory layout, at construction and through update_params (oracle: C01)
         return c01.worker('parlay', seed, tier)
@@ -770,6 +782,7 @@ def make_jobs(ctx):
              {'name': 'update', 'seed': int(ctx.seed * 1000003 + 32), 'tier': ctx.tier},
              {'name': 'update2', 'seed': int(ctx.seed * 1000003 + 35), 'tier': ctx.tier},
              {'name': 'parlay', 'seed': int(ctx.seed * 1000003 + 39), 'tier': ctx.tier},
+             {'name': 'bdhist', 'seed': int(ctx.seed * 1000003 + 42), 'tier': ctx.tier},
              {'name': 'asmclass', 'seed': int(ctx.seed * 1000003 + 40), 'tier': ctx.tier},
              {'name': 'asmclass-upd', 'seed': int(ctx.seed * 1000003 + 41), 'tier': ctx.tier},
              {'name': 'updparams0', 'seed': int(ctx.seed * 1000003 + 36), 'tier': ctx.tier},
@@ -778,7 +791,7 @@ def make_jobs(ctx):
              {'name': 'update-stale', 'seed': int(ctx.seed * 1000003 + 33), 'tier': ctx.tier},
              {'name': 'update-stale2', 'seed': int(ctx.seed * 1000003 + 34), 'tier': ctx.tier}]
     # compiled things first
-    order = {'bbox': 0, 'update': 0, 'update2': 0, 'update-stale': 0, 'update-stale2': 0, 'updparams0': 0, 'updparams1': 0, 'updparams2': 0, 'parlay': 0, 'asmclass': 0, 'asmclass-upd': 0}
+    order = {'bbox': 0, 'update': 0, 'update2': 0, 'update-stale': 0, 'update-stale2': 0, 'updparams0': 0, 'updparams1': 0, 'updparams2': 0, 'parlay': 0, 'asmclass': 0, 'asmclass-upd': 0, 'bdhist': 0}
     jobs.sort(key=lambda j: order.get(j['name'], 0 if isinstance(c01.FORMS.get(j['name'], (0, 0, ''))[2], str) else 1))
     tjobs = [{'name': 'threads%d' % n, 'seed': int(ctx.seed * 1000003 + 555), 'tier': ctx.tier} for n in THREAD_COUNTS]
     return jobs, tjobs
